@@ -26,6 +26,11 @@ type c07Case struct {
 	Prog  string  `json:"prog"`
 	K     int     `json:"k"` // cancel on receipt of the k-th trace (0 = before start); beyond the run's length = at the resting state
 	Hooks float64 `json:"hooks"`
+	// cancellation at a code point instead of a trace count: the goroutine making the Nth hit of
+	// instrumentation site Site cancels the context itself and then pauses PauseUs microseconds
+	Site    string `json:"site,omitempty"`
+	Nth     int    `json:"nth,omitempty"`
+	PauseUs int    `json:"pause_us,omitempty"`
 }
 
 // c07Prog: graph + which tasks the driver answers + events/clock reactions
@@ -37,6 +42,8 @@ type c07Prog struct {
 	// ErrAns: how a task is answered with an error: "pending" = DoWithErrHandle whose decision never comes,
 	// "retry" = handler answers retry(1) each time, "err" = DoWithErr (no handler)
 	ErrAns map[string]string
+	// Advance: on every listening trace the mock clock is moved forward by this much (timer fires)
+	Advance time.Duration
 }
 
 func c07Progs() map[string]*c07Prog {
@@ -159,6 +166,75 @@ func c07Progs() map[string]*c07Prog {
 		}
 		out["two-starts"] = &c07Prog{G: g, Answer: map[string]bool{"a1": true}}
 	}
+	// boundary listener fired (exception path running), interrupting and not
+	for _, intr := range []bool{true, false} {
+		g := gen.NewGraph("p")
+		s := g.Add(gen.Start, "start", "")
+		t := g.Add(gen.Task, "host", "")
+		e := g.Add(gen.End, "end", "")
+		g.Connect(s, t, nil)
+		g.Connect(t, e, nil)
+		b := g.Add(gen.Boundary, "bnd", "")
+		b.Host = "host"
+		b.Intr = intr
+		b.Events = []gen.EventDef{{Type: "signal", Ref: "sigB"}}
+		tx := g.Add(gen.Task, "tx", "")
+		ex := g.Add(gen.End, "endx", "")
+		g.Connect(b, tx, nil)
+		g.Connect(tx, ex, nil)
+		name := "boundary-fired"
+		if !intr {
+			name = "boundary-fired-nonintr"
+		}
+		out[name] = &c07Prog{G: g, Answer: map[string]bool{}, Signal: "sigB"}
+		out[name+"-answered"] = &c07Prog{G: g, Answer: all, Signal: "sigB"}
+	}
+	// timers that fire: the mock clock is advanced whenever a catch event starts listening
+	for _, def := range []string{"duration:PT1M", "cycle:R3/PT1M"} {
+		g := gen.NewGraph("p")
+		s := g.Add(gen.Start, "start", "")
+		c := g.Add(gen.Catch, "c1", "")
+		c.Events = []gen.EventDef{{Type: "timer", Time: def}}
+		t := g.Add(gen.Task, "t1", "")
+		c2 := g.Add(gen.Catch, "c2", "")
+		c2.Events = []gen.EventDef{{Type: "timer", Time: def}}
+		e := g.Add(gen.End, "end", "")
+		g.Connect(s, c, nil)
+		g.Connect(c, t, nil)
+		g.Connect(t, c2, nil)
+		g.Connect(c2, e, nil)
+		name := "timer-fired-" + def[:strings.IndexByte(def, ':')]
+		out[name] = &c07Prog{G: g, Answer: all, Timer: true, Advance: time.Minute}
+	}
+	// throw event waking a catch event on a parallel branch
+	{
+		g := gen.NewGraph("p")
+		s := g.Add(gen.Start, "start", "")
+		f := g.Add(gen.And, "fork", "")
+		j := g.Add(gen.And, "join", "")
+		g.Connect(s, f, nil)
+		c := g.Add(gen.Catch, "c1", "")
+		c.Events = []gen.EventDef{{Type: "signal", Ref: "sigT"}}
+		t1 := g.Add(gen.Task, "t1", "")
+		th := g.Add(gen.Throw, "th", "")
+		th.Events = []gen.EventDef{{Type: "signal", Ref: "sigT"}}
+		t2 := g.Add(gen.Task, "t2", "")
+		e := g.Add(gen.End, "end", "")
+		g.Connect(f, c, nil)
+		g.Connect(c, j, nil)
+		g.Connect(f, t1, nil)
+		g.Connect(t1, th, nil)
+		g.Connect(th, j, nil)
+		g.Connect(j, t2, nil)
+		g.Connect(t2, e, nil)
+		out["throw-catch"] = &c07Prog{G: g, Answer: all}
+	}
+	// inclusive fork with a branch ending on its own and a conditional-flow task
+	{
+		g := gen.Lower("p", gen.Seq(gen.T(), &gen.Block{Kind: "or", Default: -1, Kids: []*gen.Block{gen.Seq(gen.T(), gen.T()), gen.T(), gen.T()},
+			Conds: []*gen.Cond{{Kind: "const", Lit: true}, {Kind: "const", Lit: true}, {Kind: "const", Lit: false}}, Ends: []bool{false, true, false}}, gen.T()))
+		out["or-own-end"] = &c07Prog{G: g, Answer: all}
+	}
 	return out
 }
 
@@ -197,6 +273,24 @@ func c07Cases(tier string, seed uint64) []fw.Case {
 			}
 		}
 	}
+	// cancellation at code points (between the engine's critical sections)
+	nths := []int{1, 2, 4}
+	if tier == "thorough" {
+		nths = []int{1, 2, 3, 4, 5, 6, 8, 12}
+	}
+	for _, name := range c07Names() {
+		for _, site := range perturb.Sites {
+			if strings.HasPrefix(site, "pset.") {
+				continue
+			}
+			for _, nth := range nths {
+				for _, pause := range []int{0, 300} {
+					c := c07Case{Name: fmt.Sprintf("%s/%s#%d/p%d", name, site, nth, pause), Prog: name, K: -1, Site: site, Nth: nth, PauseUs: pause}
+					cs = append(cs, fw.MkCase("cancel-at-site", &c))
+				}
+			}
+		}
+	}
 	return fw.Number(cs)
 }
 
@@ -218,15 +312,30 @@ func c07Run(c *c07Case, env *fw.Env, v *fw.V) {
 	var lateTasks atomic.Int64   // task requests received after cancel() returned with a live context
 	var lateTotal atomic.Int64   // task requests received after cancel() returned
 	var in *drive.Inst
+	// the instance's context hangs below a parent context of the case, so that a code point reached
+	// while NewProcess is still building the instance can cancel it as well
+	var inP atomic.Pointer[drive.Inst]
+	pctx, pcancel := context.WithCancel(context.Background())
+	defer pcancel()
 	doCancel := func() {
 		if cancelAt.CompareAndSwap(0, 1) {
-			in.Note("cancel.call", "")
-			in.Cancel()
+			i := inP.Load()
+			if i != nil {
+				i.Note("cancel.call", "")
+			}
+			pcancel()
 			cancelSeq.Store(drive.Seq.Add(1))
-			in.Note("cancel.return", "")
+			if i != nil {
+				i.Note("cancel.return", "")
+			}
 		}
 	}
-	opts := drive.Opts{ExtraSubs: 1}
+	fired := func() bool { return false }
+	if c.Site != "" {
+		fired = perturb.Trigger(c.Site, c.Nth, time.Duration(c.PauseUs)*time.Microsecond, func() { doCancel() })
+		defer perturb.Trigger("", 0, 0, nil)
+	}
+	opts := drive.Opts{ExtraSubs: 1, Ctx: pctx}
 	if p.Timer {
 		opts.Mock = clock.NewMock()
 	}
@@ -263,6 +372,9 @@ func c07Run(c *c07Case, env *fw.Env, v *fw.V) {
 				}
 			}
 		case "Listening":
+			if p.Advance > 0 && opts.Mock != nil {
+				opts.Mock.Add(p.Advance)
+			}
 			if p.Signal != "" {
 				go in.Proc.ConsumeEvent(event.NewSignalEvent(p.Signal))
 			}
@@ -273,6 +385,7 @@ func c07Run(c *c07Case, env *fw.Env, v *fw.V) {
 		v.Violate("new-process-error", "error", "%v", err)
 		return
 	}
+	inP.Store(in)
 	w := in.Wait(in.Ctx)
 	w2 := in.Wait(context.Background())
 	if c.K == 0 {
@@ -290,6 +403,10 @@ func c07Run(c *c07Case, env *fw.Env, v *fw.V) {
 		v.Add("cancel-at-rest", 1)
 	} else {
 		v.Add("cancel-mid-run", 1)
+	}
+	if fired() {
+		v.Add("cancel-at-site", 1)
+		v.AddSig(fmt.Sprintf("site:%s#%d", c.Site, c.Nth))
 	}
 	v.AddSig(fmt.Sprintf("%s@%d", c.Prog, count.Load()))
 	// after cancellation: by the quiescent point everything must be gone
